@@ -549,7 +549,7 @@ Fixpoint digits_value (acc : N) (s : string) : N :=
   | String c s' => digits_value (acc * 10 + (N_of_ascii c - 48))%N s'
   end.
 
-Definition globalMaxPartID : N := 100000%N.
+Definition globalMaxPartID : N := 10000%N.   (* 100000 before the repair of C28 finding 5 *)
 
 (* what the body of a POST carries (the harness builds it; an input of the case) *)
 Inductive form_state :=
